@@ -75,6 +75,22 @@ pub trait MetadataClient: Send + Sync {
     async fn complete_compaction(&self, source_chunks: &[String], target_chunk: &str)
         -> Result<()>;
 
+    /// Atomically replace `source_chunks` by the newly written `target` chunk.
+    ///
+    /// The target is registered and the sources are removed in one catalog update, so
+    /// readers never see the merged rows twice or not at all. Fails without changing the
+    /// catalog if any source chunk is no longer registered (e.g. it was already compacted
+    /// by another node working from a stale candidate list).
+    async fn complete_compaction_with_target(
+        &self,
+        source_chunks: &[String],
+        target: &ChunkMetadata,
+    ) -> Result<()> {
+        // Fallback for backends without an atomic implementation.
+        self.register_chunk(&target.path, target).await?;
+        self.complete_compaction(source_chunks, &target.path).await
+    }
+
     /// Update compaction job status
     async fn update_compaction_status(&self, job_id: &str, status: CompactionStatus) -> Result<()>;
 
